@@ -68,7 +68,7 @@ Section Api.
     | None => nraise ValueError
     | Some full =>
       let m := if full then m else firstn 24 m in
-      let lvl := match level with None => n_lvl n | Some l => Z.min 3 (Z.max l 0) end in
+      let lvl := match level with None => n_lvl n | Some l => Z.min 4 (Z.max l 0) end in
       nmod (fun n => let h := fb_hdr n in
                      set_fb n (mkFrame (mkHeader (n_addr n) NET_MULTICAST (frame_id h) (IntT (Z.land ty 255)) (reserved h)) m)) ;;;
       write_ B FUEL (Z.of_N (lvl_2_addr (Z.to_N lvl))) S_MULTICAST
